@@ -71,6 +71,7 @@ typedef struct VThread {
     int      depri;     /* deprioritised (spinner / sleeper): goes last in canonical order */
     void    *sp;        /* stack pointer at the parked yield (explicit-state mode) */
     void    *stack_top; /* frame of the trampoline / pool loop */
+    void    *spin_pc;   /* caller of the last spin hook (diagnostics) */
 } VThread;
 
 static VThread thr[MAXT];
@@ -314,7 +315,8 @@ static void deadlock(const char *kind) {
     for (int i = 0; i < nthr; i++) {
         VThread *t = &thr[i];
         if (t->finished) continue;
-        fprintf(stdout, "%s[%d,\"%s\",%d]", first ? "" : ",", i, opname[t->op], obj_id(t));
+        fprintf(stdout, "%s[%d,\"%s\",%d,\"%p\",%u]", first ? "" : ",", i, opname[t->op], obj_id(t), t->op == OP_SPIN ? t->spin_pc : NULL,
+                (t->op == OP_SPIN && t->obj) ? *(volatile uint32_t *)t->obj : 0u);
         first = 0;
     }
     fprintf(stdout, "]}\n");
@@ -329,7 +331,9 @@ static int pick_next(void) {
     int start = cur < 0 ? 0 : cur;
     for (int pass = 0; pass < 2; pass++)
         for (int k = 0; k < nthr; k++) {
-            int i = policy == 1 ? (start + nthr - k) % nthr : (start + k) % nthr;
+            /* deprioritised threads (spinners): the one that just yielded goes last, so that spinners take turns */
+            int kk = pass == 1 ? (k + 1) % nthr : k;
+            int i = policy == 1 ? (start + nthr - kk) % nthr : (start + kk) % nthr;
             VThread *t = &thr[i];
             if (!is_enabled(t)) continue;
             if (t->op == OP_QUIESCE) { if (pass == 0) quiescers[nq++] = i; continue; }
@@ -481,10 +485,16 @@ __attribute__((noinline)) static int new_thread(void *(*fn)(void *), void *ctx, 
 }
 
 /* ================================================================== public harness interface */
+extern void (*svt_verif_spin_cb)(const volatile void *addr);
+extern void (*svt_verif_sync_store_cb)(const volatile void *addr);
+void svt_verif_spin_impl(const volatile void *addr);
+void svt_verif_sync_store_impl(const volatile void *addr);
 void vs_init(void) {
     const char *e;
     if (active) return;
     active = 1;
+    svt_verif_spin_cb = svt_verif_spin_impl;
+    svt_verif_sync_store_cb = svt_verif_sync_store_impl;
     memset(&thr[0], 0, sizeof thr[0]);
     thr[0].id = 0; thr[0].op = OP_NONE;
     nthr = 1; cur = 0; self_id = 0;
@@ -776,7 +786,9 @@ int __wrap_pthread_setschedparam(pthread_t t, int pol, const void *p) { (void)t;
 void svt_verif_spin_impl(const volatile void *addr) {
     if (!active || self_id < 0) return;
     thr[self_id].depri = 1;
-    yield_point(OP_SPIN, NULL, 0);
+    thr[self_id].spin_pc = __builtin_return_address(0);
+    thr[self_id].obj = (void *)addr;
+    yield_point(OP_SPIN, (void *)addr, 0);
     thr[self_id].depri = 0;
     TSAN_ACQ(addr);
 }
